@@ -393,6 +393,12 @@ func (p *eparser) typ() string {
 	if t.kind != "id" {
 		p.fail("expected type name, found %q", t.text)
 	}
+	if t.text == "map" && p.isOp("[") { // map[K]V
+		p.next()
+		k := p.typ()
+		p.expect("]")
+		return s + "map[" + k + "]" + p.typ()
+	}
 	s += t.text
 	for p.isOp(".") && p.toks[p.p+1].kind == "id" {
 		p.next()
